@@ -152,3 +152,10 @@ CASES += [
     {"name": "tensors added through their raw storages (the repaired defect)", "kind": "mutant", "rule": "C04-B12", "edits": [
         ("quantarhei/qm/liouvillespace/relaxationtensor.py", "        self.data = self.data + other.data\n        return self", "        self._data += other._data\n        return self", 1)]},
 ]
+
+CASES += [
+    {"name": "leaving a context reads the transformation without popping it", "kind": "mutant", "rule": "C04-B13", "edits": [
+        ("quantarhei/core/managers.py", "        SS = self.manager.basis_transformations.pop()\n", "        SS = self.manager.basis_transformations[-1]\n", 1)]},
+    {"name": "new transformations are put in front of the list", "kind": "mutant", "rule": "C04-B13", "edits": [
+        ("quantarhei/core/managers.py", "        self.basis_stack.append(nb)\n        self.basis_transformations.append(SS)\n", "        self.basis_stack.append(nb)\n        self.basis_transformations.insert(0, SS)\n", 1)]},
+]
